@@ -53,6 +53,7 @@ func runC07(c *harness.Ctx, idx int) {
 	outB, errB, err, hung := runSub(fmt.Sprintf("c07|%d|%d|%v", c.Seed, idx, poison), nil, 10*time.Minute)
 	if hung && subStalled(errB) {
 		c.Violation("no-progress", "C07/child-blocked", "the sequence process blocked (no CPU time consumed for 150 s): %s", clipStr(string(errB), 3000))
+		c.Abort()
 		return
 	}
 	if hung {
